@@ -119,12 +119,24 @@ def importSearchPath (fixed : Option (List String)) (sysPath mods : List String)
 
 /-! ## `__init__`, `save`, `load` -/
 
+/-- an element of a `sys_path` / `added_sys_path` argument: a `str` or a `pathlib.Path` -/
+inductive Entry where
+  | str (s : String)
+  | path (p : Parts)
+  deriving DecidableEq, Repr
+
+/-- `str(entry)` -/
+def Entry.toStr : Entry → String
+  | .str s => s
+  | .path p => pathStr p
+
 inductive PyVal where
   | none
   | bool (b : Bool)
   | int (n : Int)
   | str (s : String)
   | strList (l : List String)
+  | seq (l : List Entry)    -- a list / tuple of `str` and `Path` objects
   | path (p : Parts)        -- a `pathlib.Path` object
   | other                   -- any other object (an `Environment`, …)
   deriving DecidableEq, Repr
@@ -180,6 +192,8 @@ def dictGet (d : List (String × PyVal)) (k : String) : Option PyVal :=
 /-- can `json.dump` write this value, and what does `json.load` read back -/
 def jsonRoundTrip : PyVal → Except Err PyVal
   | .path _ => .error .typeError
+  | .seq l => if l.all (fun e => match e with | .str _ => true | .path _ => false)
+      then .ok (.strList (l.map Entry.toStr)) else .error .typeError
   | .other => .error .typeError
   | v => .ok v
 
@@ -215,26 +229,32 @@ def initEnv (envStr : Bool) : Option PyVal → PyVal
   | some v => v
   | Option.none => PyVal.none
 
+/-- `if isinstance(path, str): path = Path(path).absolute()`; `self._path = path` -/
+def initPath (absAlways : Bool) (cwd : Parts) : Option PyVal → Except Err Parts
+  | some (.str s) => pure (absolute cwd (parsePath s))
+  | some (.path q) => pure (if absAlways then absolute cwd q else q)
+  | _ => throw Err.typeError                                     -- missing / unusable `path`
+
 /-- `Project.__init__(**kw)`. `params`: the keyword parameters of `__init__` (from the source).
-`envStr`: does `__init__` apply `str()` to a given `environment_path` (the F5 repair)? -/
-def init (params : List String) (envStr : Bool) (cwd : Parts) (kw : List (String × PyVal)) :
+`envStr`: does `__init__` apply `str()` to a given `environment_path` (the F5 repair)?
+`absAlways`: does `__init__` make a `Path` argument absolute too (it always does so for a `str`)? -/
+def init (params : List String) (envStr absAlways : Bool) (cwd : Parts) (kw : List (String × PyVal)) :
     Except Err Project := do
   if kw.any (fun kv => kv.1 ∉ params) then throw Err.typeError   -- unexpected keyword argument
-  let path ← match dictGet kw "path" with
-    | some (.str s) => pure (absolute cwd (parsePath s))
-    | some (.path q) => pure q
-    | _ => throw Err.typeError                                     -- missing / unusable `path`
+  let path ← initPath absAlways cwd (dictGet kw "path")
   let env := initEnv envStr (dictGet kw "environment_path")
   let unsafeExt := match dictGet kw "load_unsafe_extensions" with
     | some (.bool b) => b
     | _ => false
   let sysPath ← match dictGet kw "sys_path" with
     | some (.strList l) => pure (some l)
+    | some (.seq l) => pure (some (l.map Entry.toStr))             -- `list(map(str, sys_path))`
     | some .none => pure Option.none
     | Option.none => pure Option.none
     | _ => throw Err.typeError
   let added ← match dictGet kw "added_sys_path" with
     | some (.strList l) => pure l
+    | some (.seq l) => pure (l.map Entry.toStr)
     | Option.none => pure []
     | _ => throw Err.typeError
   let smart := match dictGet kw "smart_sys_path" with
@@ -244,8 +264,8 @@ def init (params : List String) (envStr : Bool) (cwd : Parts) (kw : List (String
          django := false, added := added, environment := false }
 
 /-- `Project.load(path)` on what `save` wrote -/
-def load (params : List String) (envStr : Bool) (cwd : Parts) (file : Int × List (String × PyVal)) :
-    Except Err Project :=
-  if file.1 = 1 then init params envStr cwd file.2 else .error .wrongVersion
+def load (params : List String) (envStr absAlways : Bool) (cwd : Parts)
+    (file : Int × List (String × PyVal)) : Except Err Project :=
+  if file.1 = 1 then init params envStr absAlways cwd file.2 else .error .wrongVersion
 
 end JediModel.SysPath
